@@ -39,6 +39,7 @@ GraphOK(o) == Closed(o) /\ Owner(o) /\ Symmetric(o)
 -----------------------------------------------------------------------------
 (* the sequence graph a logged state presents *)
 RealIdx(o) == {i \in LIdx(o) : o.lines[i].virt = 0}
+NVirt(o) == Cardinality(LIdx(o) \ RealIdx(o))
 SegLenOf(r) == IF Len(r.f) = 2 THEN r.num[1]              \* GFA2 (slen, sequence): slen
                ELSE IF r.ln >= 0 THEN r.ln                 \* GFA1: LN tag
                ELSE IF r.seq # <<>> THEN Len(r.seq) ELSE -1
@@ -59,17 +60,26 @@ GraphIntended(c) ==
 SegLenNamed(o, n) ==
   LET S == {i \in RealIdx(o) : Rec(o.lines[i]).rt = "S" /\ Rec(o.lines[i]).name = n} IN
   IF S = {} THEN -1 ELSE SegLenOf(Rec(o.lines[CHOOSE i \in S : TRUE]))
-PosFits(b, bl, e, el, n) == b >= 0 /\ b <= e /\ e <= n /\ (bl = 1 <=> b = n) /\ (el = 1 <=> e = n)
+\* (n = -1: the segment is only mentioned, its length is not known)
+PosFits(b, bl, e, el, n) == n = -1 \/ (b >= 0 /\ b <= e /\ e <= n /\ (bl = 1 <=> b = n) /\ (el = 1 <=> e = n))
 PosValid(o) == \A i \in RealIdx(o) :
   LET r == Rec(o.lines[i]) IN
   (r.rt = "E" /\ Len(r.num) = 8) =>
      /\ PosFits(r.num[1], r.num[2], r.num[3], r.num[4], SegLenNamed(o, r.refs[1].id))
      /\ PosFits(r.num[5], r.num[6], r.num[7], r.num[8], SegLenNamed(o, r.refs[2].id))
 
-\* lines that mention none of the names N, as written (pool index) with their virtual flag
+\* lines that mention none of the names N, as written (pool index) with their virtual flag.
+\* A line TOUCHES the segments N when it mentions one of them or (by identifier) a line that
+\* touches them: a group over an edge of a chain member, a path over such an edge, ...
 Touches(r, N) == (r.rt = "S" /\ r.name \in N) \/ \E k \in DOMAIN r.refs : r.refs[k].id \in N
+RECURSIVE TouchClosure(_, _)
+TouchClosure(o, T) ==
+  LET ids == {Rec(o.lines[i]).name : i \in T} \ {"*"}
+      T2 == T \cup {i \in LIdx(o) : \E k \in DOMAIN Rec(o.lines[i]).refs : Rec(o.lines[i]).refs[k].id \in ids} IN
+  IF T2 = T THEN T ELSE TouchClosure(o, T2)
+TouchIdx(o, N) == TouchClosure(o, {i \in LIdx(o) : Touches(Rec(o.lines[i]), N)})
 RestBag(o, N) == BagOf(SeqMap(LAMBDA i : <<o.lines[i].p, o.lines[i].virt>>,
-                              SetToSeq({i \in LIdx(o) : ~Touches(Rec(o.lines[i]), N)})))
+                              SetToSeq(LIdx(o) \ TouchIdx(o, N))))
 CompSets(o) == {Rng(o.cc[k]) : k \in DOMAIN o.cc}
 
 -----------------------------------------------------------------------------
@@ -162,7 +172,8 @@ C14Fails(c) ==
   \cup (IF c.m1.res \notin {"ok", "FOREIGN"} /\ ~refusedOK THEN {"C14.refused"} ELSE {})
   \cup (IF ChainsOK(c, G, A) THEN {} ELSE {"C14.chains"})
   \cup (IF good # {} THEN {} ELSE MergeFails(c, G, P1, SetToSeq(C)))
-  \cup (IF GraphOK(o1) THEN {} ELSE {"C14.graph"})
+  \* closed and symmetric; the chain is REPLACED: no placeholder stands in for a removed member
+  \cup (IF GraphOK(o1) /\ NVirt(o1) = 0 THEN {} ELSE {"C14.graph"})
   \cup (IF c.m1.res # "ok" \/ (c.m2.res \in (IF XC = {} THEN {"ok"} ELSE {"ok", "Error"})
                                 /\ o2.dig = o1.dig /\ SameGraph(GraphOfObs(o2), P1))
         THEN {} ELSE {"C14.idempotent"})
@@ -181,7 +192,6 @@ PreOK(c) ==
 (* C15 *)
 LinesOfObs(o) == SeqMap(LAMBDA i : Rec(o.lines[i]), SetToSeq(RealIdx(o)))
 VirtLinesOfObs(o) == SeqMap(LAMBDA i : Rec(o.lines[i]), SetToSeq(LIdx(o) \ RealIdx(o)))
-NVirt(o) == Cardinality(LIdx(o) \ RealIdx(o))
 
 C15Fails(c) ==
   LET pre == LinesOfObs(c.pre)
@@ -201,7 +211,8 @@ C15Fails(c) ==
         ELSE (IF res \notin {"ok", "FOREIGN"} THEN {"C15.refused"} ELSE {})
              \cup (IF args.k = 0 THEN (IF res = "ok" /\ RemovedOK(pre, post, args) THEN {} ELSE {"C15.factor"})
                    ELSE IF args.k = 1 THEN (IF res = "ok" /\ same THEN {} ELSE {"C15.factor"})
-                   ELSE MultiplyFails(pre, post, args)))
+                   ELSE MultiplyFailsU(pre, post, args,
+                                       LET v == VirtLinesOfObs(c.pre) IN UsedIds(v) \cup MentionedIds(v))))
 
 -----------------------------------------------------------------------------
 Fails(c) == IF ~PreOK(c) THEN {"harness.pre"}
